@@ -395,8 +395,33 @@ for _n, _pl, _il in [
     _dom = _n not in ('comp-elt', 'comp-cond')
     feature('self-rhs-' + _n, _plain + ['{R9:$X}'], _instr + ['{R9}'], binds='$X', c02=_dom, c03=_dom)
 
-for _n in ('star-import-chain', 'star-import-chain3'):
-    pass
+# ---- evaluation order differs from text order / dynamic lookup at module and class level
+feature('builtin-read-before-module-rebinding',
+        ['{R1:len}', '{B1:len/assign} = 0', '{R2:len}'],
+        ['len__s = -1', '{R1}', 'len = 0; len__s = {d1}', '{R2}'], binds='', c02=False, c03=False, note='toplevel only: in a function the read would be an UnboundLocalError')
+feature('builtin-read-before-class-rebinding',
+        ['class K:', '    {R1:len@K}', '    {B1:len@K/class-assign} = 0', '    {R2:len@K}'],
+        ['len__s = -1', 'class K:', '    {R1}', '    len = 0; len__s = {d1}', '    {R2}'], c02=False, c03=False)
+feature('while-test-reads-body-binding',
+        ['while _o() or {R1:$X}:', '    {B1:$X/assign} = 0', '{R2:$X}'],
+        ['while _w(-{d1}) or {R1}:', '    $X = 0; $X__s = {d1}', '{R2}'], binds='$X', c02=True, c03=False)
+feature('while-test-only-reader',
+        ['{B2:$X/assign} = 1', 'while {R1:$X} and _o():', '    {B1:$X/assign} = 0'],
+        ['$X = 1; $X__s = {d2}', 'while {R1} and _w(-{d1}):', '    $X = 0; $X__s = {d1}'], binds='$X', c02=True, c03=False)
+feature('ternary-body-before-walrus',
+        ['zz = {R1:$X} if ({B1:$X/walrus} := _o()) else 0', '{R2:$X}'],
+        ['zz = {R1} if _id($X := _o(), $X__s := {d1}) else 0', '{R2}'], binds='$X', c02=True, c03=False)
+feature('walrus-under-and',
+        ['_o() and ({B1:$X/walrus} := 0)', '{R1:$X}'],
+        ['_o() and _id($X := 0, $X__s := {d1})', '{R1}'], binds='$X', c02=True, c03=True)
+feature('walrus-in-ternary-branch',
+        ['zz = ({B1:$X/walrus} := 0) if _o() else 1', '{R1:$X}'],
+        ['zz = _id($X := 0, $X__s := {d1}) if _o() else 1', '{R1}'], binds='$X', c02=True, c03=True)
+FEATURES['builtin-read-before-module-rebinding']['toplevel'] = True
+# supp does not split the flow at short-circuit operators / conditional expressions: every violation in a program that binds
+# through := in such a branch is keyed by this one cause (known finding F-condwalrus)
+FEATURES['walrus-under-and']['coarse'] = 'conditional-walrus'
+FEATURES['walrus-in-ternary-branch']['coarse'] = 'conditional-walrus'
 
 for _n in ('star-import-project', 'star-import-conditional-names', 'star-import-stdlib', 'star-import-package', 'star-import-chain', 'star-import-chain3'):
     FEATURES[_n]['toplevel'] = True
